@@ -83,7 +83,8 @@ def run_one(m, verbose=True):
         env = dict(os.environ, VERIF_REPO=dst, VERIF_SELFTEST='1')
         if m['property'] == '*':
             alarms = []
-            for prop in all_properties():
+            only = [x for x in os.environ.get('VERIF_SELFTEST_PROPS', '').replace(',', ' ').split() if x]
+            for prop in [q for q in all_properties() if not only or q in only]:
                 r = subprocess.run([os.path.join(VERIF, 'check'), prop, '--tier', 'quick', '--no-evidence'], env=env, capture_output=True, text=True, cwd=VERIF)
                 if 'cargo check failed' in r.stdout + r.stderr:
                     return 'broken', 'patched tree does not compile'
